@@ -347,12 +347,12 @@ func hTokensNamed(prefix string, n int, withError bool) []int {
 func H_Twin() {
 	n := vrt.Param("n", 3)
 	ta := hTokensNamed("a", n, true)
-	// the second instance runs on a fixed input (both symbolic would square
-	// the number of paths); its footprint is what matters
+	// the second instance runs on a copy of the same input: it follows the same
+	// path (no squaring of paths) and, replayed natively on its own goroutine,
+	// touches the same shared cells, so that go test -race can confirm what the
+	// memory monitor reports
 	tb := make([]int, n)
-	for i := range tb {
-		tb[i] = hTokKinds[i%len(hTokKinds)]
-	}
+	copy(tb, ta)
 	pa, pb := &parser{}, &parser{}
 	la, lb := &hLexer{toks: ta}, &hLexer{toks: tb}
 	var oka, okb bool
